@@ -65,18 +65,34 @@ func (t *Tagger) createTag(repo *git.Repository, version string) error {
 	}
 	majorVersion := strings.Split(version, ".")[0]
 	for _, v := range []string{version, majorVersion} {
-		if err := repo.DeleteTag(v); err != nil {
-			logger.Warn().Err(err).Str("tag", v).Msg("failed to delete tag, might be okay.")
+		name := plumbing.NewTagReferenceName(v)
+		if err := name.Validate(); err != nil {
+			return errors.New(err)
 		}
-		_, err = repo.CreateTag(v, hash.Hash(), &git.CreateTagOptions{
-			Tagger: &object.Signature{
+		tag := &object.Tag{
+			Name: v,
+			Tagger: object.Signature{
 				Name:  "Landon Clipp",
 				Email: "11232769+LandonTClipp@users.noreply.github.com",
 				When:  time.Now(),
 			},
-			Message: v,
-		})
+			Message:    v + "\n",
+			TargetType: plumbing.CommitObject,
+			Target:     hash.Hash(),
+		}
+		obj := repo.Storer.NewEncodedObject()
+		if err := tag.Encode(obj); err != nil {
+			return errors.New(err)
+		}
+		tagHash, err := repo.Storer.SetEncodedObject(obj)
 		if err != nil {
+			return errors.New(err)
+		}
+		// Write the ref directly: this creates the tag, or moves an existing
+		// one. Deleting it first (repo.DeleteTag) makes go-git rewrite
+		// .git/packed-refs and leave the "^<commit>" line of a packed
+		// annotated tag behind, which corrupts that file.
+		if err := repo.Storer.SetReference(plumbing.NewHashReference(name, tagHash)); err != nil {
 			return errors.New(err)
 		}
 	}
